@@ -37,13 +37,24 @@ class Sym(object):
     __bool__ = __len__ = __iter__ = __int__ = __index__ = _native
     __lt__ = __le__ = __gt__ = __ge__ = __contains__ = _native
 
+    # While the interpreter runs a NATIVE operation on behalf of the interpreted code (STRICT > 0), python's own
+    # machinery must not compare or hash a symbolic value: identity is not equality there (a dict lookup with a key
+    # holding a symbolic string would silently miss).  Outside (engine and unit code) == is identity.
+    STRICT = 0
+
     def __eq__(self, other):
-        return self is other
+        if self is other:
+            return True
+        if Sym.STRICT:
+            raise Undecided("native comparison with the symbolic value %r" % (self,))
+        return False
 
     def __ne__(self, other):
-        return self is not other
+        return not self.__eq__(other)
 
     def __hash__(self):
+        if Sym.STRICT:
+            raise Undecided("native hashing of the symbolic value %r" % (self,))
         return id(self)
 
 
